@@ -340,10 +340,46 @@ def arith(op, a, b):
         if is_strlike(a) and is_strlike(b):
             if isinstance(a, str) and isinstance(b, str):
                 return a + b
+            # short strings stay short strings when the left length is a constant
+            if isinstance(a, str) and isinstance(b, SStrV):
+                a = strv_of_const(a)
+            if isinstance(b, str) and isinstance(a, SStrV) and len(b) <= 4:
+                b = strv_of_const(b)
+            if isinstance(a, SStrV) and isinstance(b, SStrV):
+                la = z3.simplify(a.length)
+                if z3.is_int_value(la) and len(a.chars) + len(b.chars) <= 12:
+                    k = la.as_long()
+                    return SStrV(a.chars[:k] + b.chars, z3.simplify(k + b.length))
+                if len(a.chars) + len(b.chars) <= 8:
+                    ca, cb = len(a.chars), len(b.chars)
+                    chars = []
+                    for j in range(ca + cb):
+                        t = z3.IntVal(0)
+                        for k in range(0, ca + 1):
+                            if 0 <= j - k < cb:
+                                t = z3.If(la == k, b.chars[j - k], t)
+                        if j < ca:
+                            t = z3.If(la > j, a.chars[j], t)
+                        chars.append(t)
+                    return SStrV(chars, z3.simplify(la + b.length))
             return SStr(z3.Concat(str_term(a), str_term(b)))
         if isinstance(a, tuple) and isinstance(b, tuple):
             return a + b
     if isinstance(op, ast.Mult):
+        if isinstance(a, SStrV) and isinstance(b, int) and not isinstance(b, bool) and 0 <= b <= 3 \
+                and z3.is_int_value(z3.simplify(a.length)):
+            k = z3.simplify(a.length).as_long()
+            return SStrV(a.chars[:k] * b, z3.IntVal(k * b))
+        if isinstance(a, SStrV) and isinstance(b, int) and not isinstance(b, bool) and 0 <= b <= 3 \
+                and len(a.chars) <= 3:
+            cap = len(a.chars)
+            chars = []
+            for j in range(cap * b):
+                t = z3.IntVal(0)
+                for la in range(1, cap + 1):
+                    t = z3.If(a.length == la, a.chars[j % la], t)
+                chars.append(t)
+            return SStrV(chars, z3.simplify(a.length * b))
         if isinstance(a, str) and isinstance(b, int):
             return a * b
         if isinstance(b, str) and isinstance(a, int):
